@@ -71,6 +71,9 @@ def items(tier, seed):
     # complex-valued forms (dtype=complex, complex integrand): the workers' output buffer must carry the form's dtype
     for nu, nv, k in ((1, 1, 1), (2, 2, 2), (2, 3, 3), (3, 2, 4)):
         its.append((nu, nv, k, 'kernel', 'complex'))
+    # one form OBJECT used first for the transposed local shape (Nv, Nu), then explored for (Nu, Nv)
+    for nu, nv, k in ((2, 3, 2), (3, 2, 3), (1, 3, 2), (3, 1, 4)):
+        its.append((nu, nv, k, 'kernel', 'reused-form'))
     # one triangle configuration with many pairs (P1 x P2: 18 pairs)
     its.append(('tri', 3, 6, 2, 'kernel'))
     its.append(('tri', 3, 6, 5, 'kernel'))
@@ -90,7 +93,7 @@ SHARDS = 8
 
 
 def heavy(it):
-    if it[0] == 'tri' or it[-1] == 'complex':
+    if it[0] == 'tri' or it[-1] in ('complex', 'reused-form'):
         return False
     nu, nv, k, mode = it[:4]
     return (mode in ('line', 'kernel+main') and nu * nv >= 6) or (mode == 'kernel' and nu * nv >= 6 and k >= 3)
@@ -139,7 +142,8 @@ class Harness:
             self.shard = (item[-1][1], item[-1][2])
             item = item[:-1]
         self.cx = item[-1] == 'complex'
-        if self.cx:
+        self.reuse = item[-1] == 'reused-form'
+        if self.cx or self.reuse:
             item = item[:-1]
         if item[0] == 'tri':
             _, nu, nv, k, mode = item
@@ -163,6 +167,13 @@ class Harness:
         self.sched = None
         self.fkw = {'dtype': np.complex128} if self.cx else {}
         self.serial = self.run_serial()
+        self.shared_form = None
+        if self.reuse:
+            from skfem import BilinearForm
+            self.shared_form = BilinearForm(self.integrand, nthreads=self.k)
+            self.log = []
+            self.shared_form.assemble(self.vb, self.ub, c=np.ones(self.vb.N))     # transposed local shape, free-running
+            self.log = []
         self.dig0 = self.operand_digest()
 
     def operand_digest(self):
@@ -201,7 +212,8 @@ class Harness:
         err = None
         A = None
         try:
-            A = BilinearForm(self.integrand, nthreads=self.k, **self.fkw).assemble(self.ub, self.vb, c=self.coef)
+            form = self.shared_form if self.shared_form is not None else BilinearForm(self.integrand, nthreads=self.k, **self.fkw)
+            A = form.assemble(self.ub, self.vb, c=self.coef)
         except (S.Divergence, S.Deadlock) as e:
             err = e
         finally:
@@ -247,10 +259,10 @@ def work(item, tier, seed):
     nu, nv, k, mode = H.nu, H.nv, H.k, H.mode
     npairs = nu * nv
     chunks = [len(c) for c in np.array_split(np.arange(npairs), k)]
-    label = f"{'tri' if item[0] == 'tri' else 'line'}:{nu}x{nv}:threads={k}:{mode}{':complex' if H.cx else ''}"
+    label = f"{'tri' if item[0] == 'tri' else 'line'}:{nu}x{nv}:threads={k}:{mode}{':complex' if H.cx else ''}{':reused-form' if H.reuse else ''}"
     if H.shard is not None:
         label += f":shard{H.shard[0]}/{H.shard[1]}"
-    sig0 = f"C16|Nu={nu},Nv={nv}|threads={k}|{mode}{':complex' if H.cx else ''}|"
+    sig0 = f"C16|Nu={nu},Nv={nv}|threads={k}|{mode}{':complex' if H.cx else ''}{':reused-form' if H.reuse else ''}|"
     if H.cx and (not np.iscomplexobj(H.serial.data) or not np.abs(H.serial.data.imag).max() > 0):
         out.harness_error("complex configuration: the serial matrix has no imaginary part")
     if mode == 'kernel':
